@@ -26,7 +26,9 @@ def serve(so):
     import warnings
     warnings.filterwarnings("ignore")
     import numpy as np
-    np.seterr(all="ignore")
+    # numpy's default error state: operations that warn must really warn, so that a warning filter
+    # leaked by an earlier call (history process) shows as a difference
+    np.seterr(divide="warn", over="warn", invalid="warn", under="ignore")
     import xarray as xr  # noqa
     import wavespectra  # noqa
     from vf import hist
